@@ -462,6 +462,9 @@ class CDSInterval(AbstractFeatureInterval):
         else:
             window_fn = self._prepare_single_exon_window_for_scan_codon_locations
         location, offset = window_fn(relative_window=None, chunk_relative_coordinates=True)
+        if location.is_empty:
+            # none of the bases that take part in codons lie on the sequence chunk
+            return Sequence("", Alphabet.NT_EXTENDED, validate_alphabet=False)
         seq = str(location.extract_sequence())[offset : len(location) - ((len(location) - offset) % 3)]
         return Sequence(seq, Alphabet.NT_EXTENDED, validate_alphabet=False)
 
@@ -676,6 +679,10 @@ class CDSInterval(AbstractFeatureInterval):
 
         Returns a tuple of the Location to be iterated over, and its offset.
         """
+        if chunk_relative_coordinates and self.chunk_relative_location.is_empty:
+            # no base of this CDS lies on the sequence chunk, so it has no chunk-relative codons
+            return self.chunk_relative_location, 0
+
         # do all initial work in chromosome coordinates
         loc = self.chromosome_location
         offset = self.frames[0].value
@@ -690,6 +697,9 @@ class CDSInterval(AbstractFeatureInterval):
             chunk_relative_cleaned_location = self.liftover_location_to_seq_chunk_parent(
                 relative_loc, self.chunk_relative_location.parent
             )
+            if chunk_relative_cleaned_location.is_empty:
+                # the chunk holds none of the bases that take part in codons
+                return chunk_relative_cleaned_location, 0
             # lift this back to chromosome coordinates -- this produces a chromosome coordinate Location
             # whose bounds are the portion of this CDS that are contained on the sequence chunk
             loc_on_chrom = chunk_relative_cleaned_location.lift_over_to_first_ancestor_of_type(SequenceType.CHROMOSOME)
@@ -709,6 +719,10 @@ class CDSInterval(AbstractFeatureInterval):
 
         Returns a tuple of the Location to be iterated over, and its offset.
         """
+        if chunk_relative_coordinates and self.chunk_relative_location.is_empty:
+            # no base of this CDS lies on the sequence chunk, so it has no chunk-relative codons
+            return self.chunk_relative_location, 0
+
         next_frame = CDSFrame.ZERO
         cleaned_rel_starts = []
         cleaned_rel_ends = []
@@ -764,6 +778,9 @@ class CDSInterval(AbstractFeatureInterval):
             chunk_relative_cleaned_location = self.liftover_location_to_seq_chunk_parent(
                 relative_cleaned_location, self.chunk_relative_location.parent
             )
+            if chunk_relative_cleaned_location.is_empty:
+                # the chunk holds none of the bases that take part in codons (e.g. only skipped bases)
+                return chunk_relative_cleaned_location, 0
             # lift this back to chromosome coordinates -- this produces a chromosome coordinate Location
             # whose bounds are the portion of this CDS that are contained on the sequence chunk
             loc_on_chrom = chunk_relative_cleaned_location.lift_over_to_first_ancestor_of_type(SequenceType.CHROMOSOME)
